@@ -1547,6 +1547,10 @@ where
                             });
                         }
                     }
+                    Property::SessionExpiryInterval(val) => {
+                        // The server's value replaces the one requested in CONNECT
+                        self.need_store = val.val() != 0;
+                    }
                     _ => {
                         // Ignore other properties
                     }
